@@ -16,12 +16,12 @@ CHECKS = {
             "trusts: catch_unwind sees every panic (panic=unwind build, overflow-checks and debug-assertions on); hang = run > 60 s; allocation failure and mem::forget(Changes) out of scope", "§5 C01"),
     "C02": ("deterministic simulation with fault injection: geometry invariants evaluated after every simulated call of chaos sessions",
             "Seeded exploration: the statement's geometry invariants are evaluated through the public API after every feed_str / feed(char) / resize of PRNG-scheduled chaos sessions (resizes while the alternate screen shows, mid-sequence, with wrap pending; damaged streams; all sizes and limits).",
-            "trusts: TextUnwrapper::push as the reader of the soft-wrap mark; 'col == cols only by printing' is checked as a necessary condition via the lock-step parser's function stream", "§5 C02"),
+            "trusts: TextUnwrapper::push as the reader of the soft-wrap mark; 'col == cols only by printing with auto-wrap on' is checked as necessary conditions via the lock-step parser's function stream and the hidden-state tracker's auto-wrap flag (no explicit placement after the last print, same row, auto-wrap on at some print when the position is newly reached)", "§5 C02"),
     "C03": ("deterministic simulation at parser level: lock-step of the real parser with a table-driven reference parser over seeded sequence streams with truncation faults and resynchronisation; plus an enumerated single-step table (all scalars x 14 states x backgrounds)",
             "Refinement against the small executable reference parser (an oracle kind of this family): seeded streams of complete, truncated and damaged sequences (truncation followed by CAN/SUB/ESC/C1/ST/BEL/nothing, then intact tokens - bounded recovery, no stale-parameter leakage) are compared state by state and function by function; the single-step table over every scalar value is enumerated and reported separately as such; an end-to-end twin compares a Vt fed the stream in pieces with a Vt fed the canonical rendering of the reference parser's functions.",
             "trusts: RefParser (Williams' table + the four stated deviations), parameters rebuilt per sequence; colour components > 255 outside the statement; the schedule dimension of this content property is truncation/resynchronisation only", "§5 C03"),
     "C04": ("deterministic simulation: refinement of every Print/Rep step against the reference terminal model, in states produced by seeded sessions with resizes injected at any instant",
-            "Refinement against the reference model: one character per call, full observation after each; every Print/Rep post-state (cells, pens, marks, scrollback, cursor, frame) must equal step(observed pre-state + hidden model state, f). The simulator contributes the states only an environment event creates (wrap pending across a width change, region reset/kept by resizes, 1-column screens); it is a content property otherwise.",
+            "Refinement against the reference model: one character per call, full observation after each; every Print/Rep post-state (cells, pens, marks, scrollback, cursor, frame) must equal step(observed pre-state + hidden model state, f). The simulator contributes the states only an environment event creates (wrap pending across a width change, region reset/kept by resizes, 1-column screens); it is a content property otherwise. A twin fed the same events with their original call structure (multi-character calls, feed() loops) must show the same screen after every event.",
             "trusts: RefTerm (DESIGN.md §4) incl. its tolerated corners; current pen = model's fold of reported SGR functions", "§5 C04"),
     "C05": ("deterministic simulation: refinement of every cursor-command step against the reference terminal model, in states produced by seeded sessions with resizes",
             "Refinement against the reference model: for every cursor movement / addressing function the observed cursor must equal the model's (margins, origin mode, tab stops, wrap-pending column are hidden model state) and cells, marks and scrollback must be unchanged; resizes at any instant create the region-reset / region-kept states.",
@@ -31,10 +31,10 @@ CHECKS = {
             "trusts: RefTerm; ED 3 tolerated; on the alternate screen only the view is compared", "§5 C06"),
     "C11": ("deterministic simulation with fault injection: crash/restart at arbitrary character positions with only dump() surviving; behavioural equivalence by probe battery on forks, lock-step continuation and second-generation restart",
             "Seeded exploration of snapshot instants (inside ESC/CSI/DCS/OSC sequences and parameter lists, on either screen, any modes): the restored terminal is compared with the original immediately, through ~48 single-purpose probes on forks, through the actual remainder of the session in lock-step and through a second-generation restart. Known findings F4/F5 are attributed by state predicates.",
-            "trusts: fork by replay of the event prefix; tracker state for the two matchers; continuations contain no resize", "§5 C11"),
+            "trusts: fork by replay of the event prefix; tracker state for the two matchers (F4 is matched only in the sub-zone where dump()'s CSI u workaround cannot succeed; the rest of the 'origin mode, cursor outside the region' zone is judged); continuations contain no resize", "§5 C11"),
     "C16": ("deterministic simulation with fault injection: alternate-screen excursions with resizes injected during the excursion; primary screen compared before/throughout/after",
             "Seeded exploration of excursions (enter 47/1047/1049, arbitrary input, resizes interleaved, leave by any of the three): blank entry in the current pen, text() constant throughout, primary lines() identical on return, 1049 cursor restore; with resizes the logical-line relation, geometry and same-character clause.",
-            "trusts: function stream for entry/exit, tracker pen and resized flag, logical-line reconstruction", "§5 C16"),
+            "trusts: function stream for entry/exit, tracker pen and resized flag, logical-line reconstruction; under a limit a trim pending since before the excursion may run on return (exactly to rows + limit, handed out through that call's Changes.scrollback)", "§5 C16"),
     "C17": ("deterministic simulation: save/restore round trips with intervening input, screen switches, soft/hard resets and resizes; restored context measured by probes on forks",
             "Seeded exploration of save -> anything -> restore histories on both screens for all four spellings: position equals the per-screen saved one (or lies inside the screen after a resize), pen / origin / auto-wrap are measured by single-purpose probes on forks and compared with the tracker's saved context.",
             "trusts: hidden-state tracker (per-screen saved contexts, pen fold); multi-mode DECSET/DECRST not judged", "§5 C17"),
@@ -55,7 +55,7 @@ CHECKS = {
             "trusts: alternate-screen flag derived from the lock-step parser's DECSET/DECRST/RIS functions", "§5 C13"),
     "C14": ("deterministic simulation: conservation / exactly-once check of the scrollback stream of a limited terminal under PRNG-chosen chunkings against an unlimited twin",
             "Seeded exploration: lines handed out through every Changes.scrollback plus the final lines() of a limited terminal under an arbitrary chunking are compared line by line (order, count, content) with an unlimited terminal fed the same characters at once; TextCollector outputs are compared too.",
-            "trusts: runs containing RIS / resize / ending on the alternate screen are outside the statement and skipped; known finding F7 (TextCollector trailing empty lines) matched by predicate", "§5 C14"),
+            "trusts: runs containing RIS / resize / ending on the alternate screen are outside the statement and skipped; limits 0..200 and unlimited (an unlimited terminal must hand out nothing); known finding F7 (TextCollector trailing empty lines) matched by predicate", "§5 C14"),
     "C15": ("deterministic simulation with fault injection: view diff around every simulated call window versus the reported changed-line set",
             "Seeded exploration: around every feed_str / resize window of chaos sessions (cuts define the windows; feed(char) calls accumulate) the visible rows are diffed cell by cell and every changed or new row must be in Changes.lines.",
             "trusts: cell comparison through Line::cells(); a wrap-mark-only change is not a cell change", "§5 C15"),
